@@ -31,9 +31,33 @@ class C14(LineCheck):
         "the first iv_init happens before other threads call into the library (documented precondition)",
     ]
     rule = ("seeded free-running programs: posters vs owner (events incl. unregistration of OTHER pending events while posts arrive, raw "
-            "events), work pools with bursts / completions that submit / shutdown, iv_thread helpers, concurrent init-run-deinit of "
-            "independent loops, on all four poll methods; every program is run several times; non-trivial = the program ran to completion "
-            "with at least two threads inside the library; distinct = distinct program text")
+            "events), work pools with bursts / completions that submit / shutdown, work functions submitting continuations while the pool is "
+            "below max_threads (iv_work_thread_needed concurrent with the workers), iv_thread helpers, concurrent init-run-deinit of "
+            "independent loops, on all four poll methods; every program is run several times; one program per quick run (several in the "
+            "thorough tier) keeps a pool idle for the library's 10 s idle timeout and submits inside the expiring thread's path to the "
+            "pool lock (free_shim.c Zstall); wait/signal stress on the real kernel: register_spawn and fork + plain register, children "
+            "stopped / continued / killed through iv_wait_interest_kill so that several statuses queue per interest, unregistration from the "
+            "death callback or from a timeout racing with the reaper in another thread, SIGUSR1 interests of both scopes; non-trivial = the "
+            "program ran to completion with at least two threads inside the library; distinct = distinct program text.  The binaries record "
+            "every function they enter (harness/tsan_cov.c, -finstrument-functions): input_distribution.functions_under_tsan lists the "
+            "library functions that actually ran under TSan in this run, cross_thread_functions_not_executed the listed ones that did not")
+
+    # the cross-thread entry points and the internal functions behind them: what the observation is supposed to execute
+    EXPECTED = [
+        "iv_event.c:iv_event_post", "iv_event.c:iv_event_unregister", "iv_event.c:iv_event_register",
+        "iv_event.c:__iv_event_run_pending_events", "iv_event_raw_posix.c:iv_event_raw_post",
+        "iv_event_raw_posix.c:iv_event_raw_got_event", "iv_fd_epoll.c:iv_fd_epoll_event_rx_on", "iv_fd_epoll.c:iv_fd_epoll_event_rx_off",
+        "iv_fd_epoll.c:iv_fd_epoll_event_send",
+        "iv_work.c:iv_work_submit_pool", "iv_work.c:iv_work_pool_submit_work", "iv_work.c:iv_work_pool_submit_continuation",
+        "iv_work.c:iv_work_thread_needed", "iv_work.c:iv_work_thread_idle_timeout", "iv_work.c:iv_work_thread_got_event",
+        "iv_work.c:iv_work_event", "iv_work.c:iv_work_pool_put", "iv_work.c:__iv_work_thread_die", "iv_work.c:iv_work_start_thread",
+        "iv_wait.c:iv_wait_got_sigchld", "iv_wait.c:iv_wait_completion", "iv_wait.c:iv_wait_interest_register",
+        "iv_wait.c:iv_wait_interest_register_spawn", "iv_wait.c:iv_wait_interest_unregister", "iv_wait.c:iv_wait_interest_kill",
+        "iv_signal.c:iv_signal_handler", "iv_signal.c:iv_signal_event", "iv_signal.c:iv_signal_register", "iv_signal.c:iv_signal_unregister",
+        "iv_signal.c:__iv_signal_do_wake", "iv_signal.c:iv_signal_prepare", "iv_signal.c:iv_signal_child",
+        "iv_thread_posix.c:iv_thread_create", "iv_thread_posix.c:iv_thread_handler", "iv_thread_posix.c:iv_thread_died",
+        "iv_main_posix.c:iv_init", "iv_main_posix.c:iv_deinit", "iv_main_posix.c:iv_main",
+    ]
 
     def build(self, ctx):
         d = os.path.join(ctx.work, "b")
@@ -42,16 +66,21 @@ class C14(LineCheck):
         if not ok:
             return ok, out
         # real fork / real signals stress of iv_wait + iv_signal across threads
-        ok, out2 = vlib.cc_build(d, "tsan_stress", ["tsan_stress.c"], vlib.LIB_SRCS,
+        ok, out2 = vlib.cc_build(d, "tsan_stress", ["tsan_stress.c", tsanrun.COV_SRC], vlib.LIB_SRCS, extra=tsanrun.COV_FLAGS,
                                  san_flags=["-fsanitize=thread", "-fno-omit-frame-pointer"])
+        self.covdir = os.path.join(ctx.work, "cov")
+        os.makedirs(self.covdir, exist_ok=True)
         return ok, out + out2
 
     def run_stress(self, seed):
         import subprocess, re
         exe = os.path.join(self.d, "tsan_stress")
+        env = dict(os.environ, TSAN_OPTIONS="exitcode=66 halt_on_error=0")
+        if getattr(self, "covdir", None):
+            env["TSAN_COV_FILE"] = os.path.join(self.covdir, "stress_%d" % seed)
         try:
             p = subprocess.run([exe, str(seed)], stdout=subprocess.PIPE, stderr=subprocess.PIPE, text=True, errors="replace",
-                               timeout=90, env=dict(os.environ, TSAN_OPTIONS="exitcode=66 halt_on_error=0"))
+                               timeout=90, env=env)
             out, err, rc = p.stdout, p.stderr, p.returncode
         except subprocess.TimeoutExpired:
             out, err, rc = "", "[timeout]", 124
@@ -62,7 +91,11 @@ class C14(LineCheck):
                 name = glob.group(1) if glob else ""
                 if not (name and any(re.search(e, name) for e in tsanrun.EXEMPT)):
                     races.append(blk.strip()[:3000])
-        return {"case": "STRESS %d" % seed, "races": races, "complete": "DONE" in out, "rc": rc, "err": err[-400:]}
+        counters = {}
+        for l in out.splitlines():
+            if l.startswith("DONE"):
+                counters = {k: int(v) for k, v in (x.split("=") for x in l.split()[1:])}
+        return {"case": "STRESS %d" % seed, "races": races, "complete": "DONE" in out, "rc": rc, "err": err[-400:], "counters": counters}
 
     def cases(self, ctx):
         rng = vlib.rng_for(ctx.seed, "C14")
@@ -71,16 +104,28 @@ class C14(LineCheck):
         if os.path.exists(p):
             cases += [l.rstrip("\n") for l in open(p) if l.strip() and not l.startswith("#")]
         self.n_corpus = len(cases)
-        cases += tsanrun.programs(rng, 60 if ctx.tier == "quick" else 600)
+        cases += tsanrun.programs(rng, 63 if ctx.tier == "quick" else 630)
         # the interleaving matters for WHICH code runs, not for the verdict: repeat every program
         self.repeat = 3 if ctx.tier == "quick" else 10
+        # the 10 s idle-timeout programs (about 11 s of wall time each, run once, in parallel with everything else)
+        self.idle = [tsanrun.idle_program(rng) for _ in range(1 if ctx.tier == "quick" else 8)]
+        cases += self.idle
         return cases
 
     def correspond(self, ctx, cases):
         exe = os.path.join(self.d, "ivfree")
-        jobs = [c for c in cases for _ in range(self.repeat)]
-        with ThreadPoolExecutor(max_workers=vlib.NPROC) as ex:
-            res = list(ex.map(lambda c: tsanrun.run(exe, [c])[0], jobs))
+        idle = set(getattr(self, "idle", []))
+        # the long programs first: they overlap with all the others
+        jobs = [c for c in cases if c in idle] + [c for c in cases if c not in idle for _ in range(self.repeat)]
+        covdir = getattr(self, "covdir", None)
+
+        def one(a):
+            i, c = a
+            return tsanrun.run(exe, [c], cov=os.path.join(covdir, "free_%d" % i) if covdir else None)[0]
+        with ThreadPoolExecutor(max_workers=vlib.NPROC + len(idle)) as ex:
+            symf = ex.submit(tsanrun.symtab, exe)
+            syms = ex.submit(tsanrun.symtab, os.path.join(self.d, "tsan_stress"))
+            res = list(ex.map(one, enumerate(jobs)))
         crashes, nontriv = [], set()
         self.exempt_seen = 0
         self.incomplete = 0
@@ -105,6 +150,17 @@ class C14(LineCheck):
             sres = list(ex.map(self.run_stress, seeds))
         self.stress_runs = len(sres)
         self.stress_incomplete = sum(1 for r in sres if not r["complete"])
+        self.stress_counters = {}
+        for r in sres:
+            for k, v in r["counters"].items():
+                self.stress_counters[k] = self.stress_counters.get(k, 0) + v
+        # which library functions ran under TSan: function -> number of runs that entered it
+        self.fn_runs = {}
+        if covdir:
+            tabf, tabs = symf.result(), syms.result()
+            for f in os.listdir(covdir):
+                for fn in tsanrun.read_cov(os.path.join(covdir, f), tabs if f.startswith("stress_") else tabf):
+                    self.fn_runs[fn] = self.fn_runs.get(fn, 0) + 1
         for r in sres:
             cases.append(r["case"])
             idx = len(cases) - 1
@@ -129,9 +185,16 @@ class C14(LineCheck):
         return case
 
     def distribution(self, cases):
+        fn = getattr(self, "fn_runs", {})
         return {"corpus_programs": self.n_corpus, "programs": len(cases), "runs_per_program": self.repeat,
+                "idle_timeout_programs": len(getattr(self, "idle", [])),
                 "stress_runs": getattr(self, "stress_runs", 0), "stress_not_finished": getattr(self, "stress_incomplete", 0),
-                "exempt_flag_races_seen": getattr(self, "exempt_seen", 0), "runs_not_completed": getattr(self, "incomplete", 0)}
+                "stress_counters": getattr(self, "stress_counters", {}),
+                "exempt_flag_races_seen": getattr(self, "exempt_seen", 0), "runs_not_completed": getattr(self, "incomplete", 0),
+                "library_functions_under_tsan": len(fn),
+                "cross_thread_functions_runs": {k: fn.get(k, 0) for k in self.EXPECTED},
+                "cross_thread_functions_not_executed": [k for k in self.EXPECTED if not fn.get(k)],
+                "functions_under_tsan": sorted(fn)}
 
     def replay(self, ctx, path):
         case = None
@@ -151,12 +214,15 @@ class C14(LineCheck):
             print(r["races"][0] if r["races"] else "no race reported; complete=%s" % r["complete"])
             return 1 if (r["races"] or not r["complete"]) else 0
         bad = 0
-        for i in range(10):
-            r = tsanrun.run(os.path.join(self.d, "ivfree"), [case])[0]
+        # an idle-timeout program takes about 11 s of real time: a few runs side by side instead of ten in a row
+        n = 3 if "Zstall=" in case else 10
+        with ThreadPoolExecutor(max_workers=3 if "Zstall=" in case else 1) as ex:
+            runs = list(ex.map(lambda i: tsanrun.run(os.path.join(self.d, "ivfree"), [case])[0], range(n)))
+        for r in runs:
             nb = [x for x in r["races"] if not x["exempt"]]
             if nb:
                 bad += 1
                 if bad == 1:
                     print(nb[0]["report"])
-        print("REPLAY: %d of 10 runs reported a non-exempt data race" % bad)
+        print("REPLAY: %d of %d runs reported a non-exempt data race" % (bad, n))
         return 1 if bad else 0
